@@ -9,7 +9,12 @@ NO_INLINE_PREFIX = ("core::fmt", )
 NO_INLINE_DEFAULT = {"any_value::Unknown::is"}
 # core combinators that do nothing but invoke the closure they are given: the closure body is expanded in place
 # (`cond.then(|| e)` is `if cond { Some(e) } else { None }`, `opt.map(|x| e)` is `match opt { Some(x) => Some(e), None => None }`)
-CLOSURE_COMBINATORS = {"core::bool::<impl bool>::then": "then", "core::option::Option::<T>::map": "map"}
+CLOSURE_COMBINATORS = {"core::bool::<impl bool>::then": "then", "core::option::Option::<T>::map": "map", "core::option::Option::<T>::and_then": "and_then",
+                       "core::option::Option::<T>::filter": "filter", "core::option::Option::<T>::map_or": "map_or",
+                       # a closure value called directly: `f(x)` is `Fn::call(&f, (x,))`
+                       "core::ops::Fn::call": "call", "core::ops::FnMut::call_mut": "call", "core::ops::FnOnce::call_once": "call"}
+# index of the closure among the call's arguments
+CLOSURE_ARG = {"then": 1, "map": 1, "and_then": 1, "filter": 1, "map_or": 2, "call": 0}
 
 
 class Inst:
@@ -144,6 +149,9 @@ class Graph:
             if comb and depth + 1 <= self.max_depth:
                 gargs = [self.tcx.subst(a, subst) for a in callee.get("generic_args", [])]
                 cl = [a for a in gargs if a.get("k") == "closure"]
+                if not cl:
+                    # Fn::call(&closure, ..): the receiver type is a reference to the closure
+                    cl = [a["to"] for a in gargs if a.get("k") == "ref" and a.get("to", {}).get("k") == "closure"]
                 cfn = self.fx.fns.get(cl[0]["path"]) if cl else None
                 owner = inst
                 while cfn is not None and owner is not None and not cl[0]["path"].startswith(owner.fn["path"] + "::{closure"):
